@@ -717,6 +717,64 @@ func TestCollectionVariableNames(t *testing.T) {
 	evid.Exhaustive("variable name x {list, map} x {write, compound write, other spelling, in a block, through an alias}", n)
 }
 
+// TestFailingPathsAsArguments: an index path that fails (out of range, wrongly typed key, an element that cannot be
+// indexed) fails wherever it stands - also as the argument of len() and of the other builtins that take a value.
+func TestFailingPathsAsArguments(t *testing.T) {
+	paths := []func() *gen.Node{
+		func() *gen.Node { return gen.NIndex(id("l"), gen.NInt(3)) },
+		func() *gen.Node { return gen.NIndex(id("l"), gen.NInt(-4)) },
+		func() *gen.Node { return gen.NIndex(id("l"), gen.NStr("k")) },
+		func() *gen.Node { return gen.NIndex(id("m"), gen.NInt(0)) },
+		func() *gen.Node { return gen.NIndex(id("m"), gen.NStr("a"), gen.NInt(5)) },
+		func() *gen.Node { return gen.NIndex(id("l"), gen.NInt(0), gen.NInt(0)) },
+		func() *gen.Node { return gen.NIndex(id("l"), gen.NBin("/", gen.NInt(1), id("z0"))) },
+		// paths that do not fail: a missing map key is nil, an in-range element
+		func() *gen.Node { return gen.NIndex(id("m"), gen.NStr("nokey")) },
+		func() *gen.Node { return gen.NIndex(id("m"), gen.NStr("a")) },
+		func() *gen.Node { return gen.NIndex(id("l"), gen.NInt(2)) },
+	}
+	uses := []func(p *gen.Node) []*gen.Node{
+		func(p *gen.Node) []*gen.Node { return []*gen.Node{gen.NSet("n", gen.NCall("len", p)), gen.NCall("probe", gen.NStr("n"), id("n"))} },
+		func(p *gen.Node) []*gen.Node { return []*gen.Node{gen.NCall("add_key", id("k"), gen.NCall("len", p))} },
+		func(p *gen.Node) []*gen.Node { return []*gen.Node{gen.NCall("add_key", id("k"), p)} },
+		func(p *gen.Node) []*gen.Node {
+			return []*gen.Node{gen.NFor(gen.NSet("i", gen.NInt(0)), gen.NBin("<", id("i"), gen.NCall("len", p)), gen.NSet("i", gen.NBin("+", id("i"), gen.NInt(1))), []*gen.Node{gen.NCall("probe", gen.NStr("pass"), id("i"))})}
+		},
+		func(p *gen.Node) []*gen.Node { return []*gen.Node{gen.NIf([]*gen.Node{gen.NBin("==", gen.NCall("len", p), gen.NInt(0))}, [][]*gen.Node{{gen.NCall("probe", gen.NStr("empty"))}}, nil, false)} },
+		func(p *gen.Node) []*gen.Node { return []*gen.Node{gen.NSet("d", gen.NCall("load_json", p))} },
+		func(p *gen.Node) []*gen.Node { return []*gen.Node{gen.NSet("x", gen.NList(gen.NCall("len", gen.NList(p))))} },
+	}
+	n := 0
+	for pi, mk := range paths {
+		for ui, u := range uses {
+			prog := []*gen.Node{gen.NSet("l", gen.NList(gen.NInt(1), gen.NStr("two"), gen.NList(gen.NInt(3)))), gen.NSet("m", gen.NMap(gen.NStr("a"), gen.NList(gen.NInt(1)))), gen.NSet("z0", gen.NInt(0)), gen.NCall("probe", gen.NStr("before"))}
+			prog = append(prog, u(mk())...)
+			prog = append(prog, gen.NCall("probe", gen.NStr("after")))
+			judge(t, "failing-paths", sem.NewCase(gen.FixAll(prog)), fmt.Sprintf("failingpaths/%d/%d", pi, ui), true, "failing-path-as-argument")
+			n++
+		}
+	}
+	evid.Exhaustive("index path (failing and not) x builtin / construct that takes it as an argument", n)
+}
+
+// TestTargetResolvedAfterSource (v1): the container an index target writes into is the one its root name designates
+// when the right side has been evaluated - a named argument on the right side is an assignment and may rebind it.
+func TestTargetResolvedAfterSource(t *testing.T) {
+	named := func(nm string, v *gen.Node) *gen.Node { return gen.NAssign("=", []*gen.Node{id(nm)}, []*gen.Node{v}) }
+	progs := [][]*gen.Node{
+		{gen.NSet("l", gen.NList(gen.NInt(1), gen.NInt(2))), gen.NSet("m", gen.NList(gen.NInt(7), gen.NInt(8))), gen.NAssign("=", []*gen.Node{gen.NIndex(id("l"), gen.NInt(0))}, []*gen.Node{gen.NCall("len", named("l", id("m")))}), gen.NCall("probe", gen.NStr("r"), id("l"), id("m"))},
+		{gen.NSet("a", gen.NList(gen.NInt(1), gen.NInt(2))), gen.NSet("b", gen.NList(gen.NInt(5), gen.NInt(6))), gen.NSet("keep", id("a")), gen.NAssign("+=", []*gen.Node{gen.NIndex(id("a"), gen.NInt(1))}, []*gen.Node{gen.NCall("len", named("a", id("b")))}), gen.NCall("probe", gen.NStr("r"), id("a"), id("b"), id("keep"))},
+		{gen.NAssign("=", []*gen.Node{gen.NIndex(id("q"), gen.NInt(0))}, []*gen.Node{gen.NCall("len", named("q", gen.NList(gen.NInt(5), gen.NInt(6))))}), gen.NCall("probe", gen.NStr("q"), id("q"))},
+		{gen.NSet("x", gen.NCall("len", named("q", gen.NList(gen.NInt(5), gen.NInt(6))))), gen.NCall("probe", gen.NStr("x"), id("x"), id("q"))},
+		{gen.NSet("mm", gen.NMap(gen.NStr("k"), gen.NInt(1))), gen.NSet("nn", gen.NMap()), gen.NAssign("=", []*gen.Node{gen.NIndex(id("mm"), gen.NStr("new"))}, []*gen.Node{gen.NCall("len", named("mm", id("nn")))}), gen.NCall("probe", gen.NStr("r"), id("mm"), id("nn"))},
+		{gen.NSet("l", gen.NList(gen.NInt(1))), gen.NIf([]*gen.Node{gen.NBool(true)}, [][]*gen.Node{{gen.NAssign("=", []*gen.Node{gen.NIndex(id("l"), gen.NInt(0))}, []*gen.Node{gen.NCall("len", named("l", gen.NList(gen.NInt(0), gen.NInt(0), gen.NInt(0))))})}}, nil, false), gen.NCall("probe", gen.NStr("l"), id("l"))},
+	}
+	for i, p := range progs {
+		judge(t, "target-after-source", sem.NewCase(gen.FixAll(p)), fmt.Sprintf("targetaftersource/%d", i), true, "target-resolved-after-source")
+	}
+	evid.Exhaustive("index writes whose right side rebinds the root of the target through a named argument", len(progs))
+}
+
 // TestCollectionsOutliveTheirBlock: a list or map created under a block-local name and stored into an outer
 // container (or assigned to an outer variable, or aliasing an outer list) stays what it is after the block has
 // ended, whatever collections are created afterwards.
